@@ -1158,6 +1158,18 @@ class Model:
 
         return empty
 
+    @staticmethod
+    def _remove_model_seed_inputs(nodes: dict[str, Node]) -> None:
+        """
+        Detaches the seed inputs that were injected by the model from nodes that
+        left the model, such that the nodes can be used to build a new model.
+        """
+        for node in nodes.values():
+            seed = node.kwinputs.get("seed", None)
+            if node.needs_seed and seed is not None and seed.name.startswith("_model"):
+                kwinputs = {kw: v for kw, v in node.kwinputs.items() if kw != "seed"}
+                node.set_inputs(*node.inputs, **kwinputs)
+
     def _recursive_inputs(self, name: str) -> list[Node]:
         """Returns the recursive inputs of a model node."""
         nodes = [self._nodes[name]]
@@ -1201,6 +1213,7 @@ class Model:
         for node in nodes.values():
             node._unset_model()
 
+        self._remove_model_seed_inputs(nodes)
         nodes = {nm: nd for nm, nd in nodes.items() if not nm.startswith("_model")}
 
         return nodes, _vars
@@ -1257,6 +1270,7 @@ class Model:
         for node in nodes.values():
             node._unset_model()
 
+        self._remove_model_seed_inputs(nodes)
         nodes = {nm: nd for nm, nd in nodes.items() if not nm.startswith("_model")}
 
         # clear the model
